@@ -79,6 +79,13 @@ def synth_contexts(rng, n):
     t_all = (np.arange(n, dtype="int64") * 60 + sc.BASE_T).astype("datetime64[s]").astype("datetime64[ns]")
     src = {s: np.array([rng.choice([1.5, 2.0, 7.25, np.nan, -3.0]) for _ in rows]) for s in streams}
     ax = {a: np.array([float(rng.randint(0, 50)) for _ in rows]) for a in axes}
+    if n and rng.random() < 0.3:
+        # the stream was fed masked arrays (an observation / a depth / a position masked on some rows, a finite number underneath):
+        # a masked source value on a covered row must come back masked in ITS column and nowhere else
+        for d in (src, ax):
+            for k in list(d):
+                if rng.random() < 0.6:
+                    d[k] = np.ma.array(np.nan_to_num(d[k], nan=-9.5), mask=[rng.random() < 0.3 for _ in rows])
     ctxs = []
     empties = rng.random() < 0.35
     for m in masks:
